@@ -628,9 +628,12 @@ impl<'a> Http2Parser<'a> {
     }
 
     fn parse_headers_payload(&self, payload: &[u8]) -> Result<Vec<HttpHeader>, Http2ParseError> {
-        let headers = self
-            .hpack_decoder
-            .borrow_mut()
+        // Every parse starts at the first byte of a connection, so the header block is decoded
+        // with an empty dynamic table: state left by a block of another connection (or by an
+        // earlier parse of the same growing buffer) must not leak into this one
+        let mut decoder = self.hpack_decoder.borrow_mut();
+        *decoder = Decoder::new();
+        let headers = decoder
             .decode(payload)
             .map_err(|_| Http2ParseError::HpackDecodingFailed)?;
 
